@@ -181,6 +181,10 @@ func checkC13(c *Ctx) {
 	ruleSnapshotCopyOnWrite(c, "C13.e")
 	c.rule("C13.f", "continuation requests are matched first-in first-out", 2)
 	ruleContReqFIFO(c, "C13.f")
+	c.rule("C13.g", "the pending list is taken (snapshot + emptied) in one critical section", 1)
+	ruleTakeListAtomically(c, "C13.g")
+	c.rule("C13.h", "every mutex taken in a function is released on every exit (or held at all exits: transfer wrapper)", 30)
+	ruleBalancedLocks(c, "C13.h", "imapclient")
 	rulePublication(c, "C13.b", la, guards, clientGuard)
 	ruleCommandEncoderPairing(c, "C13.c")
 	ruleCompletionPairing(c, "C13.d", la, clientGuard)
@@ -334,6 +338,7 @@ func ruleCommandEncoderPairing(c *Ctx, rule string) {
 		if len(sites) == 0 {
 			continue
 		}
+		holders := map[ssa.Value]bool{}
 		gf := mustFlow(fn, facts{}, func(f facts, i ssa.Instruction) facts {
 			switch x := i.(type) {
 			case ssa.CallInstruction:
@@ -346,6 +351,7 @@ func ruleCommandEncoderPairing(c *Ctx, rule string) {
 						if n, ok := pt.Elem().(*types.Named); ok && n.Obj().Name() == "commandEncoder" {
 							if !isNilConst(x.Val) {
 								transferTypes[r.Owner] = r.Field
+								holders[r.Base] = true
 								return f.with("transferred")
 							}
 						}
@@ -369,7 +375,26 @@ func ruleCommandEncoderPairing(c *Ctx, rule string) {
 					continue
 				}
 				n++
-				if !fs.has("ended") && !fs.has("transferred") {
+				if fs.has("ended") {
+					continue
+				}
+				// a transfer counts only if the command object that now owns the
+				// encoder reaches the caller on this path (it is returned, or it
+				// is the caller's own object: receiver/parameter)
+				handed := false
+				if fs.has("transferred") {
+					for h := range holders {
+						if _, isParam := h.(*ssa.Parameter); isParam || paramOf(h) != nil {
+							handed = true
+						}
+						for _, rv := range ret.Results {
+							if returnsHolder(unspill(rv), h, map[ssa.Value]bool{}) {
+								handed = true
+							}
+						}
+					}
+				}
+				if !handed {
 					bad++
 					badPos = ret.Pos()
 				}
@@ -409,9 +434,13 @@ func ruleCommandEncoderPairing(c *Ctx, rule string) {
 						add = append(add, "ended")
 					}
 				}
-				// the command already failed
+				// the command was already waited for (Command.err is only set by
+				// Wait, which the holder's Wait refuses while the encoder is still
+				// held): nothing left to end
 				if a.Nil == -1 && isErrorType(a.V.Type()) {
-					add = append(add, "error-path")
+					if r, ok := loadedField(a.V); ok && r.is("Command", "err") {
+						add = append(add, "error-path")
+					}
 				}
 			}
 			return f.with(add...)
@@ -426,15 +455,16 @@ func ruleCommandEncoderPairing(c *Ctx, rule string) {
 			if fs.has("ended") {
 				continue
 			}
-			// early returns are allowed only where the encoder is already gone or the command already failed:
-			// they return a non-nil error, or sit on the edge where the stored encoder is nil
-			cls := classifyErr(ret.Results[len(ret.Results)-1], fs, nil, map[ssa.Value]bool{})
-			if cls == errNonNil || fs.has("error-path") {
+			// early returns are allowed only on the edge where the stored encoder
+			// is nil (already ended) or the command was already waited for; a
+			// failure while finishing the command (a write error) still has to
+			// release the encoder
+			if fs.has("error-path") {
 				continue
 			}
 			okAll = false
 		}
-		c.check(okAll && n > 0, rule, nm+".Close ends the encoder", closeFn.Pos(), "every path either ends the encoder or returns the error that made it unnecessary", "a path of Close returns without ending the command encoder")
+		c.check(okAll && n > 0, rule, nm+".Close ends the encoder", closeFn.Pos(), "every path ends the encoder or finds it already ended (nil)", "a path of Close returns without ending the command encoder (e.g. an early return on a write error): the encoder lock stays held and every later command blocks for ever")
 	}
 }
 
@@ -527,7 +557,50 @@ func checkRemovalCompletes(c *Ctx, rule string, fn *ssa.Function, removal *ssa.C
 			if call, ok := j.(*ssa.Call); ok && staticCallee(call) == complete {
 				fs, _ := gf.at(call)
 				if fs.hasPrefix("nonnil:") && d.Block().Dominates(removal.Block()) == false && precedes(removal, d) {
-					deferredOnErr = true
+					// the tested variable must be the function's error *result*: the
+					// cell every return loads its error from (a named result). A
+					// plain local is not assigned by `return nil, err` and the
+					// deferred closure would never see the error.
+					isResult := false
+					for _, f := range fs.list() {
+						if !strings.HasPrefix(f, "nonnil:") {
+							continue
+						}
+						name := strings.TrimPrefix(f, "nonnil:")
+						allInstrs(cl, func(k ssa.Instruction) {
+							ld, ok := k.(*ssa.UnOp)
+							if !ok || ld.Name() != name {
+								return
+							}
+							fv, ok := ld.X.(*ssa.FreeVar)
+							if !ok {
+								return
+							}
+							for bi, b := range cl.FreeVars {
+								if b != fv || bi >= len(mc.Bindings) {
+									continue
+								}
+								cell := mc.Bindings[bi]
+								all, n := true, 0
+								for _, r := range returnsOf(fn) {
+									if len(r.Results) == 0 {
+										continue
+									}
+									n++
+									rl, ok := r.Results[len(r.Results)-1].(*ssa.UnOp)
+									if !ok || rl.X != cell {
+										all = false
+									}
+								}
+								if all && n > 0 {
+									isResult = true
+								}
+							}
+						})
+					}
+					if isResult {
+						deferredOnErr = true
+					}
 				}
 			}
 		})
@@ -700,4 +773,41 @@ func ruleContReqFIFO(c *Ctx, rule string) {
 	})
 	c.check(head, rule, "readContinueReq takes the oldest request", pos, "the continuation goes to c.contReqs[0]",
 		"the server's continuation request is not given to the oldest waiting command: with two commands waiting, the wrong one sends its payload and the other waits for ever")
+}
+
+// returnsHolder: the returned value v is the object h (directly, or through a
+// phi / a load of the local holding it).
+func returnsHolder(v, h ssa.Value, seen map[ssa.Value]bool) bool {
+	if v == h {
+		return true
+	}
+	if seen[v] {
+		return false
+	}
+	seen[v] = true
+	switch x := v.(type) {
+	case *ssa.Phi:
+		for _, e := range x.Edges {
+			if returnsHolder(e, h, seen) {
+				return true
+			}
+		}
+	case *ssa.UnOp:
+		if al, ok := x.X.(*ssa.Alloc); ok {
+			for _, ref := range *al.Referrers() {
+				if st, ok := ref.(*ssa.Store); ok && st.Addr == ssa.Value(al) && returnsHolder(st.Val, h, seen) {
+					return true
+				}
+			}
+		}
+		// the holder itself is a load of a local holding the pointer
+		if hu, ok := h.(*ssa.UnOp); ok && hu.X == x.X {
+			return true
+		}
+	case *ssa.MakeInterface:
+		return returnsHolder(x.X, h, seen)
+	case *ssa.ChangeType:
+		return returnsHolder(x.X, h, seen)
+	}
+	return false
 }
